@@ -317,14 +317,29 @@ mod repr {
         };
 
         // a = residue / lhs
-        let (shift, fast_div_top) = div::normalize(lhs_clone);
-        let overflow =
-            div::div_rem_unshifted_in_place(residue, lhs_clone, shift, fast_div_top, &mut memory);
-        let mut a = Buffer::from(&residue[lhs_len..]);
-        debug_assert_eq!(residue[0], 0); // this division is an exact division
-        if overflow > 0 {
-            a.push(overflow);
-        }
+        let a = if residue.len() >= lhs_len {
+            let (shift, fast_div_top) = div::normalize(lhs_clone);
+            let overflow = div::div_rem_unshifted_in_place(
+                residue,
+                lhs_clone,
+                shift,
+                fast_div_top,
+                &mut memory,
+            );
+            let mut a = Buffer::from(&residue[lhs_len..]);
+            debug_assert_eq!(residue[0], 0); // this division is an exact division
+            if overflow > 0 {
+                a.push(overflow);
+            }
+            a
+        } else {
+            // The residue is a multiple of lhs with fewer words than lhs, so it is zero. This
+            // happens when rhs divides lhs (then b = 1 and g = rhs) and lhs is at least three
+            // words longer than rhs; the division below would be called with a dividend shorter
+            // than the divisor.
+            debug_assert!(residue.iter().all(|w| *w == 0));
+            Buffer::allocate(0)
+        };
 
         let g = Repr::from_buffer(g);
         let a = Repr::from_buffer(a).with_sign(-b_sign);
